@@ -132,3 +132,46 @@ contract(U + "SequenceBase.match",
     raises={"*": {}},
     serves=["C10", "C02"],
 )
+
+# U11c: CallBase.match - "lhs ( rhs )": the bracket pair is the last '(' and the last ')' of the abstracted text (C08, C02)
+OPEN = "srm_line(string).rfind('(')"
+CLOSE = "srm_line(string).rfind(')')"
+contract(U + "CallBase.match@cls",
+    types=dict(lhs_cls="cls", rhs_cls="cls", string="str", upper_lhs="bool", require_rhs="bool"),
+    defaults=dict(upper_lhs=False, require_rhs=False),
+    returns="tuple[ref:Base,ref:Base?]?",
+    modifies=["rule_evals"],
+    calls={"string_replace_map": "proto:string_replace_map", "lhs_cls": "proto:operand_rule", "rhs_cls": "proto:operand_rule", "repmap": "pure:str"},
+    ensures={
+        "must_end_with_parenthesis": "implies(not string.rstrip().endswith(')'), result is None)",
+        "needs_an_opening_parenthesis_and_a_left_part": "implies(result is not None, " + OPEN + " >= 0 and srm_line(string)[:" + OPEN + "].rstrip() != '')",
+        "left_part_to_its_rule": "implies(result is not None, rule_cls(nonnull(result)[0]) == lhs_cls and rule_text(nonnull(result)[0]) == "
+                                 "(repmap(srm_line(string)[:" + OPEN + "].rstrip()).upper() if upper_lhs else repmap(srm_line(string)[:" + OPEN + "].rstrip())))",
+        # everything between the last '(' and the last ')' - not a shorter piece - is the argument text
+        "whole_bracket_content_to_its_rule": "implies(result is not None and nonnull(result)[1] is not None, rule_cls(nonnull(nonnull(result)[1])) == rhs_cls and "
+                                             "rule_text(nonnull(nonnull(result)[1])) == repmap(srm_line(string)[" + OPEN + " + 1:" + CLOSE + "].strip()))",
+        "empty_brackets": "implies(result is not None and nonnull(result)[1] is None, "
+                          "repmap(srm_line(string)[" + OPEN + " + 1:" + CLOSE + "].strip()) == '' and not require_rhs)",
+    },
+    raises={"*": {}},
+    serves=["C08", "C02"],
+)
+
+contract(U + "CallBase.match@keyword",
+    types=dict(lhs_cls="str", rhs_cls="cls", string="str", upper_lhs="bool", require_rhs="bool"),
+    defaults=dict(upper_lhs=False, require_rhs=False),
+    returns="tuple[str,ref:Base?]?",
+    modifies=["rule_evals"],
+    calls={"string_replace_map": "proto:string_replace_map", "rhs_cls": "proto:operand_rule", "repmap": "pure:str"},
+    ensures={
+        "must_end_with_parenthesis": "implies(not string.rstrip().endswith(')'), result is None)",
+        "keyword_is_the_whole_left_part": "implies(result is not None, " + OPEN + " >= 0 and nonnull(result)[0] == lhs_cls and lhs_cls == "
+                                          "(repmap(srm_line(string)[:" + OPEN + "].rstrip()).upper() if upper_lhs else repmap(srm_line(string)[:" + OPEN + "].rstrip())))",
+        "whole_bracket_content_to_its_rule": "implies(result is not None and nonnull(result)[1] is not None, rule_cls(nonnull(nonnull(result)[1])) == rhs_cls and "
+                                             "rule_text(nonnull(nonnull(result)[1])) == repmap(srm_line(string)[" + OPEN + " + 1:" + CLOSE + "].strip()))",
+        "empty_brackets": "implies(result is not None and nonnull(result)[1] is None, "
+                          "repmap(srm_line(string)[" + OPEN + " + 1:" + CLOSE + "].strip()) == '' and not require_rhs)",
+    },
+    raises={"*": {}},
+    serves=["C08", "C02"],
+)
